@@ -1,4 +1,5 @@
 import McpModel.TypedTool.Schema
+import McpModel.Generated.TypedToolGen
 /-!
 E12 TypedTool (C16) — the typed tool wrapper of `toolForErr` (mcp/server.go:353-446) and
 `applySchema` (mcp/tool.go:75-142), transliterated; parametric in the validator.
@@ -14,6 +15,13 @@ Control flow (one definition per step of the Go code):
   `applyOut`  server.go:413-426 + tool.go:103-141 (forOutput): defaults on objects, `null` coerced to {}
                                 when the root type is "object", validate, re-marshal only if defaulted
   content     server.go:435-443 text fallback
+
+  `deliver`   server.go `(*Server).callTool` after the wrapper returned: the PROTOCOL VERSION of the session
+                                enters here and only here (`handleMultiRoundTripResult`: a result is marked
+                                `resultType: complete` for a peer on `multiRoundTripSince` or later); the
+                                members of the wrapper's result — structured content, content, isError — are
+                                handed on as they are, at every version (`Generated.TypedTool.callToolAssigns`)
+  `serve`     the wrapper and the dispatcher: what a peer at a given protocol version is answered
 
 `Env.remarshal` is the loss of `JSON text → map[string]any / any → JSON text`; it is the identity for
 every value whose numbers Go represents exactly (see `GoTy.lean`).  Core Lean only.
@@ -156,6 +164,43 @@ def call (E : Env S) (t : Tool S) (h : JVal → HRet) (a : Args) : Outcome :=
           match applyOut E t j with
           | none => { seen := some x, kind := .rpcError, structured := none, content := [] }
           | some sc => { seen := some x, kind := .ok, structured := some sc, content := finalContent r.content sc }
+
+/-! ### the dispatcher: what reaches a peer that speaks a given protocol version -/
+
+/-- the `resultType` member of a result on the wire -/
+inductive RType where
+  | complete | inputRequired
+deriving DecidableEq, Repr, Inhabited
+
+/-- What `(*Server).callTool` hands to the JSON-RPC layer: the wrapper's outcome and the `resultType` it is
+marked with (`none`: the member is absent). -/
+structure Delivered where
+  out : Outcome
+  resultType : Option RType
+deriving Inhabited
+
+/-- mcp/mrtr.go `clientSupportsMultiRoundTrip`: `protocolVersion >= multiRoundTripSince` (Go compares the
+version strings; so does this). -/
+def supportsMultiRoundTrip (since v : String) : Bool := !decide (v < since)
+
+/-- server.go `(*Server).callTool` after `st.handler` returned (the typed handlers of the harness never set
+input requests): an error of the wrapper is passed on as it is; a result is marked `complete` for a peer that
+supports multi round trip (`handleMultiRoundTripResult`), and nil content is replaced by the empty list (the
+same `Outcome`: `content = []`). No other member of the result is touched — `callToolAssigns = ["Content"]`,
+re-checked against the regenerated table by `Props.dispatcher_assigns_only_content`. -/
+def deliver (mrt : Bool) (o : Outcome) : Delivered :=
+  match o.kind with
+  | .rpcError => { out := o, resultType := none }
+  | _ => { out := o, resultType := if mrt then some .complete else none }
+
+/-- **The wrapper model with the protocol version as a parameter**: what a peer whose session runs at
+protocol version `v` is answered by a server whose multi-round-trip threshold is `since`. -/
+def serve (since v : String) (E : Env S) (t : Tool S) (h : JVal → HRet) (a : Args) : Delivered :=
+  deliver (supportsMultiRoundTrip since v) (call E t h a)
+
+/-- … for the SDK as it is (regenerated threshold) -/
+def serveAt (v : String) (E : Env S) (t : Tool S) (h : JVal → HRet) (a : Args) : Delivered :=
+  serve Generated.TypedTool.multiRoundTripSince v E t h a
 
 /-- The environment built from the reference validator. -/
 def refEnv (remarshal : JVal → JVal) : Env Schema := { fill := fill, valid := valid, remarshal := remarshal }
